@@ -215,7 +215,7 @@ def _project(prop, op, line):
 def eap_attrs(rng, valid=True):
     total = rng.choice([4, 5, 100, 253, 254, 300, 506])
     if not valid:
-        style = rng.randrange(4)
+        style = rng.randrange(5)
     else:
         style = -1
     data = bytearray(R.rand_bytes(rng, total))
@@ -230,6 +230,12 @@ def eap_attrs(rng, valid=True):
         attrs[0] = (79, attrs[0][1][:3])
     if style == 3:
         attrs.append((79, b"x"))
+    if style == 4:
+        # the first run of EAP-Message attributes matches the EAP header, a further fragment follows behind another attribute
+        attrs += [(rng.choice([18, 31, 24]), b"sep"), (79, R.rand_bytes(rng, rng.choice([1, 5, 100])))]
+    if style == -1 and len(attrs) > 1 and rng.random() < 0.3:
+        # fragments need not be adjacent: all EAP-Message attributes of the packet make up the EAP packet
+        attrs.insert(rng.randrange(1, len(attrs)), (rng.choice([18, 31, 24]), b"between"))
     return attrs
 
 
